@@ -105,8 +105,10 @@ def canon_results(results, defs, base):
     seq_ids = {d.id: i for i, d in enumerate(defs)
                if isinstance(d, SequenceSearchDef)}
     out = {}
-    for path, rs in results.items():
-        ranks = {}
+    # section ids are replaced by first-occurrence ranks over the WHOLE
+    # collection (paths in sorted order), so ids shared between files show
+    ranks = {}
+    for path, rs in sorted(results.items()):
         rows = []
         for r in rs:
             sec = r.section_id
@@ -156,6 +158,10 @@ def _execute(recipe):
     obs = []
     fs = None
     for run in recipe['runs']:
+        # files may grow between runs (append-only logs)
+        for name, text in (run.get('append') or {}).items():
+            with open(os.path.join(base, name), 'ab') as f:
+                f.write(text.encode('latin-1'))
         if fs is None or run.get('new_searcher', True):
             g = run.get('global')
             fs = FileSearcher(
